@@ -8,7 +8,7 @@
 From stdpp Require Import gmap.
 From Coq Require Import ZArith List.
 From Coq Require Import NArith.
-From Measured Require Import Model.FMap Model.Units Model.Parse Model.ParseCheck Proofs.ParseFacts Model.LR Model.Lex Proofs.LexFacts.
+From Measured Require Import Model.FMap Model.Units Model.Parse Model.ParseCheck Proofs.ParseFacts Model.LR Model.Lex Proofs.LexFacts Model.TextParse Proofs.TextParseFacts.
 Import ListNotations.
 
 (* Unit.parse on a term sequence: the transformer's KeyError is passed on; everything else the
@@ -73,3 +73,15 @@ Print Assumptions C17_class_plus_is_maximal_munch.
 Theorem C17_class_shapes : forall r P, class_pred r = Some P -> is_class r P.
 Proof. exact class_pred_sound. Qed.
 Print Assumptions C17_class_shapes.
+
+(* the embedded transformer: when a text does not parse and Unit.parse nevertheless reports a KeyError, a term that had
+   already been reduced when the parser stopped does not resolve -- the KeyError is that term's, raised before the
+   syntax error further right was reached *)
+Theorem C17_key_error_before_syntax_error :
+  forall nm tab order ignore rules infos filtered terminals end_sym T s,
+  (forall t, parse_text order ignore rules infos filtered terminals end_sym T (to_text s) <> PTree t) ->
+  unit_parse_text nm tab order ignore rules infos filtered terminals end_sym T s = TUnit PKeyError ->
+  exists t, In t (reduced_terms nm (parse_failure_stack order ignore rules infos filtered terminals end_sym T (to_text s))) /\
+            resolve tab (fst t) = KeyErr.
+Proof. exact syntax_failure_key_error. Qed.
+Print Assumptions C17_key_error_before_syntax_error.
